@@ -71,10 +71,12 @@ def check(spec):
                 x = parent[x]
             return x
 
+        # group membership comes from the INPUTS (spec / framework), not from the link classes atomica chose: a link between two
+        # members of the group (directly or through an in-group junction 'jg*') is an in-group move whatever class it has
         for pop, comps in bypop.items():
             for c in comps:
                 for l in c.outlinks:
-                    if isinstance(l, rp.TLink) and l.dest.pop.name != pop and l.dest.pop.name in parent:
+                    if l.dest.pop.name != pop and l.dest.pop.name in parent and l.dest in set(bypop[l.dest.pop.name]):
                         parent[find(pop)] = find(l.dest.pop.name)
         units = {}
         for pop in bypop:
@@ -85,32 +87,31 @@ def check(spec):
             n = max(ns)
             same_n = len(ns) == 1
             member = set(comps)
-            # in-group junctions are transparent: follow ordinary links from outside that end in the group, possibly via in-group junctions
             A = np.zeros(T)
             flush = np.zeros(T)
             other = np.zeros(T)
             injunc = set()
-            for c in comps:
-                for l in c.outlinks:
-                    if isinstance(l.dest, rp.Junc) and l.dest.duration_group == gname:
-                        injunc.add(l.dest)
-            frontier = list(injunc)
-            while frontier:
-                j = frontier.pop()
-                for l in j.outlinks:
-                    if isinstance(l.dest, rp.Junc) and l.dest.duration_group == gname and l.dest not in injunc:
-                        injunc.add(l.dest)
-                        frontier.append(l.dest)
+            for pop in res.model.pops:
+                if pop.name in unit_pops:
+                    for j in pop.comps:
+                        if isinstance(j, rp.Junc) and j.name.startswith("jg") and any(l.source in member for l in j.inlinks):
+                            injunc.add(j)
+            inside = member | injunc
             for c in comps:
                 for l in c.inlinks:
-                    if not isinstance(l, rp.TLink):
+                    if l.source not in inside:
                         A += rp.lv[l]
                 for l in c.outlinks:
                     if l is c.flush_link:
                         flush += rp.lv[l]
-                    elif not isinstance(l, rp.TLink):
+                    elif l.dest not in inside:
                         other += rp.lv[l]
-                    elif l.dest not in member and l.dest not in injunc:
+            for j in injunc:
+                for l in j.inlinks:
+                    if l.source not in inside:
+                        A += rp.lv[l]
+                for l in j.outlinks:
+                    if l.dest not in inside:
                         other += rp.lv[l]
             occ = sum(rp.cv[c] for c in comps)
             init = [(float(rp.cv[c][0]), n_of[c.pop.name]) for c in comps]
